@@ -31,7 +31,8 @@ RULE = ("channel objects {TdlChannel SISO, TdlMimoChannel, SuChannel (with / "
         "a later transmission of a history.  "
         "Frequency-domain cases include channel memory of one, two and several "
         "fft sizes (taps fold onto the grid); single-link path loss includes "
-        "exactly 0. ")
+        "exactly 0. "
+        "In the multiuser slots some (or all) transmitters are silent (all-zero rows); every link's reported response must be the one of THIS transmission (sample count checked before use). ")
 ASSUMPTIONS = ["for channel memory >= fft size the DFT of the reported response is "
                "the defining sum over ALL taps, sum_d h[d] exp(-2 pi i k d / fft) "
                "(taps fold onto the fft grid; the same reading C02's exact "
@@ -336,6 +337,19 @@ def case_single_link(ctx, rng, idx):
                       "transmissions": nsteps})
 
 
+def silence(rng, x):
+    """Some transmitters have nothing to send in this slot (all-zero rows)."""
+    if rng.random() >= 0.3:
+        return []
+    n = x.shape[0]
+    rows = [i for i in range(n) if rng.random() < 0.5] or [int(rng.integers(0, n))]
+    if rng.random() < 0.15:
+        rows = list(range(n))
+    for i in rows:
+        x[i] = 0
+    return rows
+
+
 def case_multiuser(ctx, rng, idx):
     mimo_links = bool(idx % 2)
     gkind = ["rayleigh", "jakes"][(idx // 2) % 2]
@@ -377,7 +391,9 @@ def case_multiuser(ctx, rng, idx):
         if domain == "time":
             N = int(rng.integers(1, 80))
             x = rand_c(rng, nin, ain, N) if mimo_links else rand_c(rng, nin, N)
-            okc, out = ctx.call("multiuser-sum-of-links", ch.corrupt_data, x, detail=d(N=N))
+            silent = silence(rng, x)
+            okc, out = ctx.call("multiuser-sum-of-links", ch.corrupt_data, x,
+                                detail=d(N=N, silent_transmitters=silent))
         else:
             fft = max(4, int(2 ** math.ceil(math.log2(D + 1))))
             sel, skind = gen_selection(rng, fft)
@@ -386,6 +402,7 @@ def case_multiuser(ctx, rng, idx):
                 continue
             N = bs * int(rng.integers(1, 4))
             x = rand_c(rng, nin, ain, N) if mimo_links else rand_c(rng, nin, N)
+            silent = silence(rng, x)
             okc, out = ctx.call("multiuser-sum-of-links", ch.corrupt_data_in_freq_domain, x,
                                 fft, sel, cls="raised:" + skind,
                                 detail=d(fft=fft, selection=sel_repr(sel)))
@@ -394,20 +411,39 @@ def case_multiuser(ctx, rng, idx):
         ctx.ev("multiuser-sum-of-links", len(out) == nout, cls="receiver-count", detail=d())
         if len(out) != nout:
             continue
+        if silent:
+            d0 = d
+            d = lambda **e: d0(silent_transmitters=silent, **e)
         worst_ok = True
         for o in range(nout):
             want = None
             scale_parts = 0.0
             for i in range(nin):
                 r_idx, t_idx = (i, o) if sw else (o, i)
-                resp = ch.get_last_impulse_response(r_idx, t_idx)
+                okr, resp = ctx.call("multiuser-sum-of-links", ch.get_last_impulse_response,
+                                     r_idx, t_idx, cls="response-query-raised",
+                                     detail=d(link=(r_idx, t_idx)))
+                if not okr:
+                    want = None
+                    break
                 h = dense(resp)
+                nsamp = N if domain == "time" else N // bs
+                ctx.ev("multiuser-sum-of-links", h.shape[-1] == nsamp,
+                       cls="response-is-of-this-transmission",
+                       detail=d(link=(r_idx, t_idx), response_samples=h.shape[-1],
+                                expected=nsamp))
+                if h.shape[-1] != nsamp:
+                    want = None
+                    break
                 if domain == "time":
                     part = conv_oracle(h, x[i], sw)
                 else:
                     part, _ = freq_oracle(h, x[i], fft, sel, sw)
                 want = part if want is None else want + part
                 scale_parts = scale_parts + fro(part)
+            if want is None:
+                worst_ok = False
+                continue
             got = np.asarray(out[o])
             if got.shape != want.shape:
                 ctx.ev("multiuser-sum-of-links", False, cls="shape",
